@@ -281,6 +281,12 @@ def c10(run, args):
     rng.shuffle(prs)
     prs = prs[:150 if quick else 1500]
     pb = concretise(run, prs, ["file"], lambda i, st: [((i + run.seed) % 2 * 2, 0)], 500, rng, "proc", probe_every=2)
+    # ids that do not ascend in arrival order: the id counter is driven to the end of its range, the next deliveries get
+    # ...-9998, ...-9999, ...-0000 (within one second); order, "latest", cap eviction and what a reopen shows follow arrival
+    for cap in (0, 2):
+        A = {"op": "add", "mb": 0, "meta": 1, "size": 500}
+        ops = [A, {"op": "wrapids", "mb": 0}, A, A, A, {"op": "probe"}, {"op": "reopen", "id": cap}, {"op": "probe"}, A, {"op": "probe"}, {"op": "reopen", "id": cap}, {"op": "probe"}]
+        beh.append({"id": "wrap-c%d" % cap, "store": "file", "cap": cap, "maxkb": 0, "names": ["alpha", "beta", "gamma"], "ops": ops})
     for b in pb:
         b["procs"] = True
     run.cov["restart_behaviours"] = len(pb)
